@@ -334,6 +334,14 @@ def run_tree(ctx, tree, rng, thresholds, want_mutants=True):
   ctx.op('from_state_dict')
   ctx.check(tree_same(tree, back) is None, 'roundtrip.state_dict', lambda: dict(diff=repr(tree_same(tree, back))[:600]))
   ctx.check(snap.diff(before, snap.snap(tree)) is None, 'input_unchanged:from_state_dict', None)
+  if isinstance(sd, dict):
+    # the same state handed over as a FrozenDict (a state that went through flax.core.freeze): restoring matches by key all the same
+    from flax.core import freeze
+    try:
+      back_f = ser.from_state_dict(tree, freeze(sd))
+      ctx.check(tree_same(tree, back_f) is None, 'roundtrip.state_dict:frozen_state', lambda: dict(diff=repr(tree_same(tree, back_f))[:600]))
+    except Exception as e:  # noqa: BLE001
+      ctx.check(False, 'roundtrip.state_dict:frozen_state', dict(error=repr(e)[:300]))
 
   restored = {}
   enc0 = None
